@@ -41,14 +41,55 @@ func genValue(r *rand.Rand, k kind) value {
 	case k == kBytes:
 		v.B = pick(r, [][]byte{{0}, {1, 2, 3}, {0xff, 0, 0xff}, []byte("x")})
 	case k == kSlice:
-		pool := []uint32{1, 2, 3, 7, 0, 4294967295}
-		n := 1 + r.IntN(3)
-		for i := 0; i < n; i++ {
-			v.L = append(v.L, pick(r, pool))
-		}
-		v.L = dedupe(v.L)
+		v.L = genList(r, false)
 	}
 	return v
+}
+
+var slicePool = []uint32{1, 2, 3, 7, 0, 4294967295}
+
+// genList builds a hostile uint32 value list: values repeated inside the list, 0 and MaxUint32,
+// long lists, and (allowEmpty) the empty list. The documentation makes the stored value a set
+// ("each number can only exist once"), so the model de-duplicates.
+func genList(r *rand.Rand, allowEmpty bool) []uint32 {
+	var l []uint32
+	switch x := r.IntN(100); {
+	case x < 6 && allowEmpty:
+		return []uint32{}
+	case x < 45: // short, possibly with repeats
+		n := 1 + r.IntN(3)
+		for i := 0; i < n; i++ {
+			l = append(l, pick(r, slicePool))
+		}
+	case x < 75: // repeats on purpose
+		a, b := pick(r, slicePool), pick(r, slicePool)
+		l = pick(r, [][]uint32{{a, a}, {a, b, a}, {a, a, a, b}, {b, a, b, a}})
+	case x < 90: // the whole pool, shuffled, some twice
+		for _, i := range r.Perm(len(slicePool)) {
+			l = append(l, slicePool[i])
+			if r.IntN(3) == 0 {
+				l = append(l, slicePool[i])
+			}
+		}
+	default: // long list over a wider range, with repeats
+		n := 20 + r.IntN(60)
+		for i := 0; i < n; i++ {
+			l = append(l, uint32(r.IntN(24)))
+		}
+	}
+	return l
+}
+
+// genKeyList is a key list that may name a key more than once.
+func genKeyList(r *rand.Rand, min, max int) []string {
+	ks := genKeys(r, min, max)
+	if r.IntN(4) == 0 {
+		ks = append(ks, pick(r, ks))
+		if r.IntN(3) == 0 {
+			ks = append([]string{pick(r, ks)}, ks...)
+		}
+	}
+	return ks
 }
 
 func genTime(r *rand.Rand) int64 {
@@ -177,12 +218,12 @@ func genCase(r *rand.Rand, idx, nOps int) *caseT {
 			}
 			first := sw()
 			for pi := 0; pi < nParts; pi++ {
-				o.Parts = append(o.Parts, part{Sw: (first + pi) % 2, Keys: genKeys(r, 1, 3)})
+				o.Parts = append(o.Parts, part{Sw: (first + pi) % 2, Keys: genKeyList(r, 1, 3)})
 			}
 		case x < 305:
 			o.RPC, o.Sw = "GetAll", sw()
 		case x < 350:
-			o.RPC, o.Sw, o.Keys = "GetByKeys", sw(), genKeys(r, 1, 4)
+			o.RPC, o.Sw, o.Keys = "GetByKeys", sw(), genKeyList(r, 1, 4)
 			switch r.IntN(6) {
 			case 0:
 				o.Exclude = genKeys(r, 1, 2)
@@ -199,7 +240,7 @@ func genCase(r *rand.Rand, idx, nOps int) *caseT {
 			}
 			first := sw()
 			for pi := 0; pi < nParts; pi++ {
-				o.Parts = append(o.Parts, part{Sw: (first + pi) % 2, Keys: genKeys(r, 1, 3)})
+				o.Parts = append(o.Parts, part{Sw: (first + pi) % 2, Keys: genKeyList(r, 1, 3)})
 			}
 		case x < 460: // Count
 			o.RPC = "Count"
@@ -216,7 +257,7 @@ func genCase(r *rand.Rand, idx, nOps int) *caseT {
 		case x < 530:
 			o.RPC, o.Sw, o.Key = "IsKeyExist", sw(), pick(r, keyNames[:])
 		case x < 565:
-			o.RPC, o.Sw, o.Keys = "AreKeysExist", sw(), genKeys(r, 1, 4)
+			o.RPC, o.Sw, o.Keys = "AreKeysExist", sw(), genKeyList(r, 1, 4)
 		case x < 715: // Increment*
 			o.Sw = sw()
 			o.Key = pick(r, []string{"k0", "k0", "k1", "k1", "k3", "k2"})
@@ -246,19 +287,19 @@ func genCase(r *rand.Rand, idx, nOps int) *caseT {
 		case x < 775:
 			o.RPC, o.Sw = "Uint32SlicePush", sw()
 			for _, k := range sliceKeys(r, c) {
-				o.Pairs = append(o.Pairs, pair{Key: k, Values: genValue(r, kSlice).L})
+				o.Pairs = append(o.Pairs, pair{Key: k, Values: genList(r, true)})
 			}
 		case x < 835:
 			o.RPC, o.Sw = "Uint32SliceDelete", sw()
 			for _, k := range sliceKeys(r, c) {
-				o.Pairs = append(o.Pairs, pair{Key: k, Values: genValue(r, kSlice).L})
+				o.Pairs = append(o.Pairs, pair{Key: k, Values: genList(r, true)})
 			}
 		case x < 865:
 			o.RPC, o.Sw, o.Key = "Uint32SliceSize", sw(), sliceKeys(r, c)[0]
 		case x < 895:
-			o.RPC, o.Sw, o.Key, o.Val = "Uint32SliceIsValueExist", sw(), sliceKeys(r, c)[0], pick(r, []uint32{1, 2, 3, 7, 0, 4294967295})
+			o.RPC, o.Sw, o.Key, o.Val = "Uint32SliceIsValueExist", sw(), sliceKeys(r, c)[0], pick(r, append([]uint32{11, 23}, slicePool...))
 		case x < 935:
-			o.RPC, o.Sw, o.Keys = "ShiftByKeys", sw(), genKeys(r, 1, 3)
+			o.RPC, o.Sw, o.Keys = "ShiftByKeys", sw(), genKeyList(r, 1, 3)
 		case x < 950:
 			o.RPC, o.Sw = "Destroy", sw()
 		default: // sleeps
